@@ -20,6 +20,12 @@ except Exception:
     pass
 
 
+try:
+    READY = json.load(open(os.path.join(HERE, "manifest.d", "_ready.json")))
+except Exception:
+    READY = []
+
+
 def validate(obj, schema_path):
     try:
         import jsonschema
@@ -46,6 +52,9 @@ def main():
         for f in sorted(glob.glob(os.path.join(HERE, "manifest.d", "C*.json"))):
             e = json.load(open(f))
             pid = e["property_id"]
+            if pid not in READY:
+                print("skip %s: not in manifest.d/_ready.json" % pid)
+                continue
             if not os.path.exists(os.path.join(HERE, "checks", pid.lower() + ".py")):
                 print("skip %s: no check module" % pid)
                 continue
